@@ -1,6 +1,7 @@
 import Rdpgw.Oracle.Tunnel
 import Rdpgw.Oracle.Policy
 import Rdpgw.Oracle.Rdp
+import Rdpgw.Oracle.Ntlm
 
 /-!
 # rdpgw_oracle — line-protocol driver for the executable models
@@ -36,6 +37,7 @@ def dispatch (line : String) : String :=
     | "installed" => cmdInstalled m
     | "clientaddr" => cmdClientAddr m
     | "cookie" => cmdCookie m
+    | "ntlm" => cmdNtlm m
     | "usertoken" => cmdUserToken m
     | "tokeninfo" => cmdTokenInfo m
     | _ => "bad-op"
